@@ -76,8 +76,12 @@ Record facts := {
                                           that is not lexically inside a parallel region: it binds to the CALLER's team *)
   f_recursive : list (string * string);   (* (file, function) of every function whose body calls a function of its own
                                           name (self-recursion, directly or through a child object / an overload) *)
-  f_spe_anneal_div_is_bound : bool     (* spe.hpp: the divisor of `lambda = lambda - lambda / X` is the bound of the
+  f_spe_anneal_div_is_bound : bool;    (* spe.hpp: the divisor of `lambda = lambda - lambda / X` is the bound of the
                                           main loop `for (i = 0; i < X; ++i)` that contains the statement *)
+  (* wave 4: the row order of what landmarks.hpp triangulate() returns *)
+  f_tri_returns : list string;         (* the expression of every `return` statement of triangulate() (whitespace removed) *)
+  f_tri_scatter : bool                 (* triangulate() has a loop `for (J = 0; J < n_landmarks; ..)` whose body is
+                                          `embedding.row(landmarks[J]) = landmarks_embedding.first.row(J)` *)
 }.
 
 (* Self-recursive functions of the source the model was written from.  Recursion DEPTH is what C01's "never terminates
@@ -123,7 +127,9 @@ Definition ref_facts : facts :=
      f_omp_throws := [];
      f_omp_orphans := [];
      f_recursive := rec_allowed;
-     f_spe_anneal_div_is_bound := true |}.
+     f_spe_anneal_div_is_bound := true;
+     f_tri_returns := ["embedding"%string];
+     f_tri_scatter := true |}.
 
 Definition nonneg (E : senv) : Prop :=
   0 <= s_N E /\ 0 <= s_D E /\ 0 <= s_d E /\ 0 <= s_k E /\ 0 <= s_K E /\ 0 <= s_nu E /\
@@ -160,6 +166,48 @@ Definition spe_lambda_final (bound div : Z) : option Q := spe_anneal (Z.to_nat b
 Definition spe_lambda_src (F : facts) (bound other : Z) : option Q :=
   spe_lambda_final bound (if f_spe_anneal_div_is_bound F then bound else other).
 
+(* (4) wave 4 -- the ROW ORDER of landmark triangulation (routines/landmarks.hpp).  The landmarks are a shuffled
+   prefix of the sample indices; `le` = rows of the landmark embedding IN LANDMARK ORDER (row j belongs to sample
+   lm[j]); `tri i` = the coordinates triangulate() computes for a non-landmark sample i from its distances to the
+   landmarks.  The matrix `embedding` and the flags `to_process` are total maps here (that every index is in range
+   is c01_triangulate).
+     for (j = 0; j < n_landmarks; ++j) { to_process[landmarks[j]] = false; embedding.row(landmarks[j]) = le.row(j); }
+     for (i = 0; i < n_vectors; ++i)   { if (!to_process[i]) continue; embedding.row(i) = tri(i); }
+     return embedding; *)
+Definition fupd {A : Type} (f : nat -> A) (i : nat) (v : A) : nat -> A := fun x => if Nat.eqb x i then v else f x.
+
+Fixpoint tri_scatter {A : Type} (lm : list nat) (le : list A) (emb : nat -> A) (tp : nat -> bool)
+  : (nat -> A) * (nat -> bool) :=
+  match lm, le with
+  | i :: lm', r :: le' => tri_scatter lm' le' (fupd emb i r) (fupd tp i false)
+  | _, _ => (emb, tp)
+  end.
+
+Definition tri_rows {A : Type} (N : nat) (lm : list nat) (le : list A) (tri : nat -> A) (dflt : A) : list A :=
+  let '(emb, tp) := tri_scatter lm le (fun _ => dflt) (fun _ => true) in
+  map (fun i => if tp i then tri i else emb i) (List.seq 0%nat N).
+
+(* what "row i describes input sample i" means here: the landmark coordinates of sample i if it is landmark number j,
+   its triangulation otherwise *)
+Fixpoint lm_pos (i : nat) (lm : list nat) : option nat :=
+  match lm with
+  | [] => None
+  | x :: t => if Nat.eqb x i then Some O else option_map S (lm_pos i t)
+  end.
+Definition sample_row {A : Type} (lm : list nat) (le : list A) (tri : nat -> A) (dflt : A) (i : nat) : A :=
+  match lm_pos i lm with Some j => nth j le dflt | None => tri i end.
+
+(* triangulate() as the SOURCE has it: when every return statement returns the matrix `embedding` built by the two
+   loops above, the caller gets tri_rows; a return statement with another expression hands the caller that other
+   matrix `alt` whenever its guard `g` holds (both arbitrary: the theorem quantifies over them) *)
+Definition strs_eqb (a b : list string) : bool :=
+  (Nat.eqb (length a) (length b)) && forallb (fun p => String.eqb (fst p) (snd p)) (combine a b).
+Definition tri_returns_ok (F : facts) : bool := strs_eqb (f_tri_returns F) ["embedding"%string].
+Definition tri_rows_ret {A : Type} (returns_ok : bool) (g : bool) (alt : list A)
+  (N : nat) (lm : list nat) (le : list A) (tri : nat -> A) (dflt : A) : list A :=
+  if negb returns_ok && g then alt else tri_rows N lm le tri dflt.
+Definition tri_rows_src {A : Type} (F : facts) := @tri_rows_ret A (tri_returns_ok F).
+
 (* what the model assumes of each expression, for ALL non-negative sizes: the right-hand sides are the
    expressions written in Shapes_Model.v (site numbers in brackets) *)
 Definition facts_agree (F : facts) : Prop :=
@@ -186,7 +234,9 @@ Definition facts_agree (F : facts) : Prop :=
   f_omp_throws F = [] /\                                                                   (* region_run *)
   f_omp_orphans F = [] /\                                                                  (* ws_done *)
   rec_ok (f_recursive F) = true /\                                                         (* depth bounds above *)
-  f_spe_anneal_div_is_bound F = true.                                                      (* spe_lambda_final *)
+  f_spe_anneal_div_is_bound F = true /\                                                    (* spe_lambda_final *)
+  f_tri_returns F = ["embedding"%string] /\                                                (* tri_rows_src *)
+  f_tri_scatter F = true.                                                                  (* tri_scatter *)
 
 (* executable point-wise comparison of two tables *)
 Definition facts_differ_at (F G : facts) (E : senv) : bool :=
@@ -213,7 +263,9 @@ Definition facts_differ_at (F G : facts) (E : senv) : bool :=
     Bool.eqb (is_nil (f_omp_throws F)) (is_nil (f_omp_throws G)) &&
     Bool.eqb (is_nil (f_omp_orphans F)) (is_nil (f_omp_orphans G)) &&
     Bool.eqb (rec_ok (f_recursive F)) (rec_ok (f_recursive G)) &&
-    Bool.eqb (f_spe_anneal_div_is_bound F) (f_spe_anneal_div_is_bound G)).
+    Bool.eqb (f_spe_anneal_div_is_bound F) (f_spe_anneal_div_is_bound G) &&
+    Bool.eqb (strs_eqb (f_tri_returns F) ["embedding"%string]) (strs_eqb (f_tri_returns G) ["embedding"%string]) &&
+    Bool.eqb (f_tri_scatter F) (f_tri_scatter G)).
 
 (* the sizes of a request, with the loop variables at both ends of their ranges *)
 Definition envs_of (c : cfg) (keff : Z) : list senv :=
